@@ -301,22 +301,35 @@ def run(prog, rep, tier):
     pushes = [c for c in mb.live_calls() if c.d.endswith("Vec::<T, A>::push") or (c.d.endswith("::push") and "Vec" in c.d)]
     iters = [c for c in mb.live_calls() if c.d.endswith("::iter") and "String" in c.f]
     rep.examined(R14, "s4::main|append-in-order", sample={"process_path_calls": len(pp), "push_calls": len(pushes)})
+    # path expansion handed to other threads: the results come back in completion order
+    pp_closures = []
+    for cb_ in prog.bodies():
+        if cb_.path.startswith("s4::main::{closure"):
+            if any(c.d.endswith("filepreprocessor::process_path") for c in cb_.live_calls()):
+                sends_ = [c.d.split("::")[-1] for c in cb_.live_calls() if "Sender" in c.d and c.d.split("::")[-1] in ("send", "try_send", "send_timeout")]
+                pp_closures.append((cb_.path, sends_))
+    for cp_, sends_ in pp_closures:
+        if sends_:
+            rep.violation(R14, "s4::main|append-in-order|expanded-in-threads", "main: a path argument is expanded by process_path inside %s and its result is sent over a channel; the source list is then assembled in the order "
+                          "the expansions finish (and behind the arguments expanded inline), not in command-line order, so ties between sources are no longer broken by argument order" % cp_.split("::", 2)[-1])
     if len(pp) != 1:
-        raise CheckerError("main: %d process_path calls" % len(pp))
-    # the argument of process_path is the item of a forward slice iteration over `paths`
-    o = mb.origins(pp[0].args[0])
-    fwd = all(x[0] == "call" and x[2].endswith("Iterator>::next") or (x[0] == "call" and x[2].endswith("::next")) for x in o)
-    nexts = [c for c in mb.live_calls() if c.o.endswith("Iterator::next")]
-    rev = [c for c in mb.live_calls() if c.o.split("::")[-1] in ("rev", "sort", "sort_unstable", "sort_by", "dedup", "reverse", "sort_by_key", "swap")]
-    if rev:
-        rep.violation(R14, "s4::main|append-in-order", "main: the path list is reordered (%s) before processing" % [c.o for c in rev])
-    if not fwd:
-        rep.violation(R14, "s4::main|append-in-order", "main: process_path is not applied to the paths in iteration order")
-    self_tys = [c.callee.get("self") or "" for c in nexts]
-    if any("Rev<" in s for s in self_tys):
-        rep.violation(R14, "s4::main|append-in-order", "main: a reversed iteration feeds the path list")
-    if not pushes:
-        rep.violation(R14, "s4::main|append-in-order", "main: results of process_path are not appended with push()")
+        if not any(s_ for _p, s_ in pp_closures):
+            raise CheckerError("main: %d process_path calls" % len(pp))
+    if len(pp) == 1:
+        # the argument of process_path is the item of a forward slice iteration over `paths`
+        o = mb.origins(pp[0].args[0])
+        fwd = all(x[0] == "call" and x[2].endswith("Iterator>::next") or (x[0] == "call" and x[2].endswith("::next")) for x in o)
+        nexts = [c for c in mb.live_calls() if c.o.endswith("Iterator::next")]
+        rev = [c for c in mb.live_calls() if c.o.split("::")[-1] in ("rev", "sort", "sort_unstable", "sort_by", "dedup", "reverse", "sort_by_key", "swap")]
+        if rev:
+            rep.violation(R14, "s4::main|append-in-order", "main: the path list is reordered (%s) before processing" % [c.o for c in rev])
+        if not fwd:
+            rep.violation(R14, "s4::main|append-in-order", "main: process_path is not applied to the paths in iteration order")
+        self_tys = [c.callee.get("self") or "" for c in nexts]
+        if any("Rev<" in s for s in self_tys):
+            rep.violation(R14, "s4::main|append-in-order", "main: a reversed iteration feeds the path list")
+        if not pushes:
+            rep.violation(R14, "s4::main|append-in-order", "main: results of process_path are not appended with push()")
     # walker sorted
     wb = prog.body("s4lib::readers::filepreprocessor::process_path")
     sorts = [c for c in wb.live_calls() if c.d.endswith("WalkDirGeneric::<C>::sort") or (c.d.endswith("::sort") and "WalkDir" in c.d)]
